@@ -51,11 +51,77 @@ def b32Op (j : Json) : Except String Json := do
   return jobj [("enc", jstr (String.ofList (e.map fun c => Char.ofNat c.toNat))),
                ("dec", jopt jhex (Base32.b32decode e))]
 
+/-- ASCII string ↔ byte list (hash strings) -/
+def asciiOf (s : String) : Bytes := s.toList.map fun c => UInt8.ofNat c.toNat
+def strOf (b : Bytes) : Json := jstr (String.ofList (b.map fun c => Char.ofNat c.toNat))
+
+/-- a digest function given as a finite table `[[bytes, digest], …]` (hex); `[]` elsewhere -/
+def tableH (j : Json) : Except String (Bytes → Bytes) := do
+  let rows ← getArr j "H"
+  let tab ← rows.mapM fun r => do
+    match r with
+    | .arr #[.str a, .str b] => pure ((← unhex a), (← unhex b))
+    | _ => throw "H: rows are [hex, hex]"
+  return fun x => match tab.find? (fun p => p.1 == x) with
+    | some p => p.2
+    | none => []
+
+/-- op `c06.history` : one object from `Magnet.torrent()` and what happens to it afterwards.
+    {base16 : the magnet's hash as `_infohash_as_base16()` gives it, adopted : did the magnet hold
+    downloaded metadata, stages : [{copy, m, vok, H}]}  ↦  per stage (after `copy()` if `copy`, then
+    any changes that leave the metainfo `m`): the stored hash, `dump(validate=True/False)`, the three
+    reports (model), and the specification: the span of `info` in the validated dump and the hex
+    digest of exactly those bytes (theorems `C06_explicit_span_validated`, `C06_history`). -/
+def historyOp (j : Json) : Except String Json := do
+  let base16 := asciiOf (← getStr j "base16")
+  let adopted ← getBool j "adopted"
+  let stages ← getArr j "stages"
+  let mut o : Obj := ofMagnet [] adopted base16
+  let mut out : List Json := []
+  for st in stages do
+    let m ← getPy st "m"
+    let vok ← getBool st "vok"
+    let copy ← getBool st "copy"
+    let H ← tableH st
+    let env : Env := { fromTs := fun _ => none, validate := fun _ => vok }
+    match m with
+    | .dict md =>
+      o := o.run ((if copy then [Step.copy] else []) ++ [Step.mutate md])
+      let dT := dump env o.md true
+      let dF := dump env o.md false
+      let ib := infoBytes env o.md
+      let infoIsDict := match PyVal.lookupStr "info" (ensureInfo o.md) with
+        | some (.dict _) => true
+        | _ => false
+      let (canonOk, span, specHash) : Bool × Json × Json := match dT with
+        | .ok bs => (match parseStrict env.lim bs, spanOf env.lim kInfo bs with
+          | some (.dict _), some (off, len) =>
+            (true, jnats [off, len], strOf (Base32.hexLower (H ((bs.drop off).take len))))
+          | some (.dict _), none => (true, Json.null, Json.null)
+          | _, _ => (false, Json.null, Json.null))
+        | .error _ => (true, Json.null, Json.null)
+      let source := match ib, o.explicit with
+        | .ok _, _ => "calculated"
+        | .error _, some _ => "stored"
+        | .error _, none => "none"
+      out := out ++ [jobj [
+        ("explicit", jopt strOf o.explicit),
+        ("dumpT", jexc jhex dT), ("dumpF", jexc jhex dF), ("infoBytes", jexc jhex ib),
+        ("infohash", jexc strOf (o.infohash env H)),
+        ("b32", jexc strOf (o.infohashBase32 env H)),
+        ("xt", jexc strOf (o.magnetXt env H)),
+        ("source", jstr source),
+        ("canon", jbool canonOk), ("span", span), ("specHash", specHash),
+        ("hyp", jbool (wf m && (!vok || infoIsDict)))]]
+    | _ => throw "metainfo must be a dict"
+  return jobj [("stages", jarr out)]
+
 def handle (op : String) (j : Json) : Except String Json :=
   match op with
   | "c06.export" => exportOp j
   | "c06.hash" => hashOp j
   | "c06.b32" => b32Op j
+  | "c06.history" => historyOp j
   | _ => throw s!"unknown op {op}"
 
 end Driver.C06
